@@ -13,6 +13,8 @@ var (
 )
 
 // Register makes l the listener that "listening on addr" resolves to (R6 call sites).
+//
+//go:norace
 func Register(addr string, l *Listener) {
 	regMu.Lock()
 	reg[addr] = l
@@ -20,6 +22,8 @@ func Register(addr string, l *Listener) {
 }
 
 // Unregister removes all registered listeners (end of run).
+//
+//go:norace
 func Unregister() {
 	regMu.Lock()
 	reg = map[string]*Listener{}
@@ -27,6 +31,8 @@ func Unregister() {
 }
 
 // Lookup returns the listener registered for addr.
+//
+//go:norace
 func Lookup(addr string) *Listener {
 	regMu.Lock()
 	defer regMu.Unlock()
@@ -35,6 +41,8 @@ func Lookup(addr string) *Listener {
 
 // HTTPListenAndServe replaces (*http.Server).ListenAndServe: the same server, with the handler the
 // broker installed, is served on the in-memory listener registered under srv.Addr.
+//
+//go:norace
 func HTTPListenAndServe(srv *http.Server) error {
 	l := Lookup(srv.Addr)
 	if l == nil {
@@ -44,11 +52,15 @@ func HTTPListenAndServe(srv *http.Server) error {
 }
 
 // HTTPListenAndServeTLS: TLS is not modelled; served in clear on the simulated listener.
+//
+//go:norace
 func HTTPListenAndServeTLS(srv *http.Server, cert, key string) error {
 	return HTTPListenAndServe(srv)
 }
 
 // HTTPShutdown replaces (*http.Server).Shutdown.
+//
+//go:norace
 func HTTPShutdown(srv *http.Server, ctx context.Context) error {
 	return srv.Shutdown(ctx)
 }
